@@ -193,6 +193,7 @@ static FILE* make_stream(const std::string& path, bool sink, int vmode, size_t v
     if (!f) { delete c; return nullptr; }
     if (vmode == 1) setvbuf(f, nullptr, _IONBF, 0);
     else if (vmode == 2) setvbuf(f, nullptr, _IOFBF, vsize);
+    else if (vmode == 3) setvbuf(f, nullptr, _IOLBF, vsize ? vsize : 4096);   // line-buffered (a tty/pty-like or user-configured stream): a write ending in '\n' flushes from inside fwrite
     g_streams[f] = c;
     io.open_streams++;
     return f;
